@@ -523,6 +523,11 @@ def _run_am(case, res):
     return res
 
 
+def interp_cases(tier):
+    """interpreted pass (NUMBA_DISABLE_JIT=1)"""
+    return [{"kind": "absolute", "mesh": "am3"}, {"kind": "am", "mesh": "polecap"}]
+
+
 def selftest_case(tier):
     return {"kind": "absolute", "mesh": "amstrip"}
 
